@@ -886,8 +886,15 @@ impl<'s> Runner<'s> {
         // C09's absolute expectations apply to the history VM's execution whatever the fresh VM
         // says (a context that is only wrong after a particular history is still a wrong context);
         // the probe channels carry the program's tag, so a stale program is never judged here.
-        if let Some(stop) = self.c09_check(pid, engine, pkt, mb, &obs, at, false) {
-            return Err(stop);
+        //
+        // Exception: in the sweep right after a call that failed, a difference from the fresh VM is
+        // the failed call's doing (a C10 matter: "leaves the VM behaving exactly as before"), so
+        // there the comparison with the fresh VM comes first and C09 only judges what agrees.
+        let post_failure_sweep = ctx.is_some();
+        if !post_failure_sweep {
+            if let Some(stop) = self.c09_check(pid, engine, pkt, mb, &obs, at, false) {
+                return Err(stop);
+            }
         }
         if case == Case::Stale && obs.outcome.is_err() {
             // invalidated compiled code: the documented "not compiled" error
@@ -916,6 +923,11 @@ impl<'s> Runner<'s> {
             }
             if case == Case::Stale {
                 self.counters.inc("stale_compiled_exec_ran_current_program");
+            }
+            if post_failure_sweep {
+                if let Some(stop) = self.c09_check(pid, engine, pkt, mb, &obs, at, false) {
+                    return Err(stop);
+                }
             }
             return Ok(());
         }
